@@ -64,6 +64,9 @@ type Step struct {
 	NewCfg   *Config            `json:"new_cfg,omitempty"`
 
 	Twin *Step `json:"twin,omitempty"` // second request issued concurrently (C16/C17 world twin)
+
+	Tag     string `json:"tag,omitempty"`     // "twin:<k>" / "hostile:<k>" pairing for C20
+	Hostile string `json:"hostile,omitempty"` // the hostile string this step carries
 }
 
 // MintSpec derives a session from a genuine one (or from scratch) and seals it
